@@ -9,7 +9,7 @@ OUT=/verif/seeded/$ID
 mkdir -p "$OUT"
 cd "$WT" || exit 3
 export CARGO_TARGET_DIR="$WT/target" CARGO_NET_OFFLINE=true
-git checkout -q -- . ; git clean -fdq -e change.diff -e demo.diff -e NOTES.md -e target
+git reset -q --hard HEAD; git clean -fdq -e change.diff -e demo.diff -e NOTES.md -e target
 git apply --whitespace=nowarn change.diff || { echo "change.diff does not apply"; exit 3; }
 echo "== baseline with change (demo not applied)"
 cargo nextest run --workspace --no-fail-fast --tool-config-file pb:/w/lib/nextest.toml --profile pb --test-threads 8 --offline 2>&1 | tail -3 | tee "$OUT/baseline_with_change.txt"
